@@ -58,9 +58,10 @@ type run struct {
 	skip   map[string]bool
 
 	// per-property state
-	c4 *c04state
-	c5 *c05state
-	c8 *c08state
+	c4  *c04state
+	c5  *c05state
+	c8  *c08state
+	c10 *c10state
 
 	// history shape for probes
 	dryRunPending map[string]bool // "scope/acct/branch" with a rolled-back derivation not yet followed by a committed one
@@ -78,6 +79,19 @@ type snapshot struct {
 // (known findings the caller wants to look beyond); it reports whether the
 // run must stop.
 func (r *run) fail(sig, format string, a ...any) bool {
+	if r.c10 != nil && r.c10.enum && r.c10.failedAttempts > 0 && strings.HasPrefix(sig, "op-failed:") {
+		// C10: the attempt that was not hit by a fault is the retry; where
+		// the model says the operation succeeds, its failure after rolled
+		// back attempts is "retrying does not give the fault-free result"
+		parts := strings.SplitN(sig, ":", 3)
+		code := ""
+		if len(parts) == 3 {
+			code = ":" + parts[2]
+		}
+		sig = "retry-differs:op=" + r.c10.kind + ":result" + code
+		format = fmt.Sprintf("after %d rolled-back attempts of the same operation: ", r.c10.failedAttempts) + format
+		r.c10.needResync = true
+	}
 	sig = core.SigSafe(sig)
 	if r.skip[sig] {
 		r.env.Count("known." + sig)
@@ -175,6 +189,11 @@ func (sim) Execute(env *core.Env, p *core.Plan) {
 		if r.stop || env.Failed() {
 			break
 		}
+		if r.c10 != nil && r.c10.needResync {
+			if !r.c10.resync() {
+				break
+			}
+		}
 		if r.c8 != nil && r.c8.resync {
 			r.c8.resync = false
 			if !r.reopen(r.path) {
@@ -233,6 +252,8 @@ func (r *run) setup() bool {
 		r.c5 = newC05(r)
 	case "C08":
 		r.c8 = newC08(r)
+	case "C10":
+		r.c10 = newC10(r)
 	}
 	if r.c4 != nil {
 		r.c4.addBaseSecrets()
@@ -280,7 +301,8 @@ func (r *run) setup() bool {
 	}
 	g := r.net.GenesisHash
 	r.m.Sync = syncM{Height: 0, Hash: append([]byte(nil), g[:]...),
-		TS: r.net.GenesisBlock.Header.Timestamp.Unix(), Blocks: map[string][]byte{"0": append([]byte(nil), g[:]...)}}
+		TS: r.net.GenesisBlock.Header.Timestamp.Unix(), Blocks: map[string][]byte{"0": append([]byte(nil), g[:]...)},
+		Birthday: birthday.Add(-48 * time.Hour).Unix()}
 	r.locked = true
 	r.sinceRestart = true
 	for _, sc := range r.m.Scopes {
